@@ -669,23 +669,29 @@ pub fn trace_hash(outs: &[ReplicaOut]) -> u64 {
 
 /// The independent verdict pass over an identical reader stack and plan (C08 oracle, C06 failure half).
 pub fn expected_verdict(bytes: &[u8], plan: &Plan, cfg: u16, initial: bool) -> crate::verdict::Verdict {
-    use crate::verdict::verdict;
+    use crate::verdict::{verdict, Verdict};
+    fn run<R: std::io::BufRead>(reader: &mut Reader<R>, cfg: u16, initial: bool) -> Verdict {
+        apply_cfg(reader, cfg);
+        preconsume(reader, cfg);
+        let mut v = verdict(reader, initial);
+        if cfg & CFG_CARRY_ON != 0 {
+            // the caller repeats the call on the same reader while it fails (see `deliver`)
+            for _ in 0..3 {
+                if v.is_ok() {
+                    break;
+                }
+                v = verdict(reader, initial);
+            }
+        }
+        v
+    }
     if plan.slice {
-        let mut reader = Reader::from_reader(bytes);
-        apply_cfg(&mut reader, cfg);
-        preconsume(&mut reader, cfg);
-        verdict(&mut reader, initial)
+        run(&mut Reader::from_reader(bytes), cfg, initial)
     } else if plan.bufreader_cap > 0 {
         let sim = SimReader::new(bytes, plan);
-        let mut reader = Reader::from_reader(BufReader::with_capacity(plan.bufreader_cap, sim));
-        apply_cfg(&mut reader, cfg);
-        preconsume(&mut reader, cfg);
-        verdict(&mut reader, initial)
+        run(&mut Reader::from_reader(BufReader::with_capacity(plan.bufreader_cap, sim)), cfg, initial)
     } else {
         let sim = SimReader::new(bytes, plan);
-        let mut reader = Reader::from_reader(sim);
-        apply_cfg(&mut reader, cfg);
-        preconsume(&mut reader, cfg);
-        verdict(&mut reader, initial)
+        run(&mut Reader::from_reader(sim), cfg, initial)
     }
 }
